@@ -4,4 +4,4 @@
 Require Import SB.Model.Show SB.Model.Lib SB.Model.Cli.
 From Coq Require Import Extraction ExtrOcamlBasic QArith.
 Extraction Language OCaml.
-Extraction "Extract/model.ml" run_op op_endorse op_emit op_cli op_build CliCase SB.Model.Cli.Options SB.Model.Cli.Entry SB.Model.Lib.Settings default_settings Qmake.
+Extraction "Extract/model.ml" run_op op_endorse op_emit op_http op_cli op_build CliCase SB.Model.Cli.Options SB.Model.Cli.Entry SB.Model.Lib.Settings default_settings Qmake.
